@@ -66,8 +66,53 @@ def one_region(eq, reg, p):
     return out
 
 
+def ranges(req):
+    """combineSfuncs with an orthogonal spacing function on the innermost / outermost contour of each region, for the base options and with
+    every *_range_inner (resp. *_range_outer) option scaled: which parameters each contour's weights depend on"""
+    eq, options, inputs = G.build_tokamak(req["cfg"])
+    base = dict(req["cfg"]["options"])
+    NO = ("nonorthogonal_target_all_poloidal_spacing_range", "nonorthogonal_xpoint_poloidal_spacing_range")
+    variants = {"base": {}}
+    for suffix in ("_inner", "_outer"):
+        variants["scaled" + suffix] = {k + suffix: req["values"][k] * req["scale"] for k in NO}
+    fixed = {k: req["values"][k] for k in NO}
+    fixed.update({k + "_inner": req["values"][k] for k in NO})
+    fixed.update({k + "_outer": req["values"][k] for k in NO})
+    out = {}
+    for name, reg in eq.regions.items():
+        N = 2 * reg.ny_noguards
+        L = reg.totalDistance(psi=eq.psi)
+        sorth = lambda i, L=L, N=N: L * numpy_asarray(i) / N
+        rec = {}
+        for vname, var in variants.items():
+            o2 = dict(base)
+            o2.update(fixed)
+            o2.update(var)
+            reg.resetNonorthogonalOptions(o2)
+            for cname, ix in (("innermost", -(reg.nxInsideSeparatrix() - 1.0)), ("outermost", reg.nxOutsideSeparatrix() - 1.0)):
+                if ix == 0:
+                    continue
+                reg.global_xind = ix
+                try:
+                    f = reg.combineSfuncs(reg, sorth)
+                    idx = np.arange(0.0, N + 0.25, 0.5)
+                    rec[f"{vname}:{cname}"] = [float(x) for x in np.asarray(f(idx), dtype=float)]
+                except Exception as e:
+                    rec[f"{vname}:{cname}"] = dict(error=type(e).__name__ + ": " + str(e)[:160])
+        out[name] = dict(kind=reg.kind, L=float(L), funcs=rec)
+    return out
+
+
+def numpy_asarray(i):
+    return np.asarray(i, dtype=float)
+
+
 def main():
     req = json.load(sys.stdin)
+    if req.get("mode") == "ranges":
+        print("@@JSON " + json.dumps(ranges(req)))
+        sys.stdout.flush()
+        os._exit(0)
     res = {}
     for p in req["prefactors"]:
         cfg = dict(req["cfg"])
